@@ -68,7 +68,11 @@ def pick_window(assets, rnd, shape):
     if shape in ("from", "fromto"):
         f = rnd.choice(cands)
     if shape in ("to", "fromto"):
-        t = rnd.choice([c for c in cands if f is None or c >= f])
+        # (mostly a to-date on the very day of some transaction - preferably one whose UTC date differs from its own date - else any candidate)
+        own = [d for d in days if f is None or d >= f]
+        split = [day_of(x) for h in assets.values() for x in h if x["t"] // 86400 != day_of(x) and (f is None or day_of(x) >= f)]
+        r = rnd.random()
+        t = rnd.choice(split) if split and r < 0.5 else rnd.choice(own) if own and r < 0.8 else rnd.choice([c for c in cands if f is None or c >= f])
     return f, t
 
 
